@@ -228,6 +228,26 @@ class C02(Property):
         rc, out, res = vlib.go_test_overlay("./core/load", OVERLAY, run="^TestVerifC02$", cases=[], tag="c02p", timeout=900)
         return rc == 0, out
 
+    def extra(self, ctx):
+        """thorough tier: free-running -race monitor of conservation / idle-never-sheds under real concurrency."""
+        if ctx.tier != "thorough":
+            return []
+        rc, out, res = vlib.go_test_overlay("./core/load", OVERLAY, run="^TestVerifC02Race$", cases=[], tag="c02r",
+                                            timeout=600, race=True, env={"VERIF_C02_RACE": "1"})
+        ctx.checker_cmds.append("go test -race -run TestVerifC02Race ./core/load (overlay): 16 goroutines x 3000 Allow/Pass/Fail")
+        if rc != 0 or not res:
+            if "DATA RACE" in out:
+                return [{"what": "data race in core/load under concurrent Allow/Pass/Fail", "replay": out[-3000:]}]
+            raise ExecError("c02 race monitor rc=%s: %s" % (rc, out[-2000:]))
+        r = res[0]
+        ctx.notes.append("race monitor: %s" % r)
+        fails = []
+        if r["final"] != 0 or r["admitted"] != r["resolved"] or r["negative"] != 0:
+            fails.append({"what": "flying != admitted - resolved under concurrency", "replay": r})
+        if r["idleShed"] != 0:
+            fails.append({"what": "idle shedder shed a request", "replay": r})
+        return fails
+
     def coq_case(self, case, obs):
         items = []
         for o, b in zip(case["ops"], obs["obs"]):
